@@ -16,6 +16,7 @@ import SF.Proofs.CborEnc
 import SF.Proofs.CborDecode
 import SF.Proofs.UbjEncTop
 import SF.Json.Enc
+import SF.Proofs.UnfConsTop
 namespace SF.Props.C10
 open SF SF.Cbor SF.Cbor.Cst SF.Cbor.Enc
 
@@ -189,3 +190,62 @@ theorem json_ext_same (s : Enc) (x : XEv) : step s x = execEvs s x.expand := by
     | (simp only [step, XEv.expand]; rw [execEvs_single])
 
 end SF.PropsJson.C10
+
+
+/-! ## the Unfolder as CONSUMER (mirror SF/Gotype/Unfold.lean; proofs SF/Proofs/UnfCons{KC,KC2,Parse,Top}.lean) -/
+
+namespace SF.PropsUnf.C10
+open SF SF.Unf SF.Ops.Unf
+open SF.UnfProofs.Cons (deliver deliverExpanded)
+
+/-- C10 for the Unfolder — for EVERY extended event stream `xs` (well-formed or not), EVERY context
+`c` of the Unfolder (ANY target type — primitives, slices, maps, pointers, structs, `interface{}` —,
+any state of the six stacks, in the middle of a document or idle) whose key cache has its
+representation invariant (C20), and every fuel: delivering `xs` has EXACTLY the outcome of
+delivering its expansion — the same result (ok / the same error / panic), and the same final
+context: the stored value, all six stacks, scratch buffers, cells, registry — except for the
+CONTENTS of the key cache, which has seen the by-reference keys (`KCOk`: invariant and
+configuration kept) -/
+theorem ext_events_mean_expansion (fuel : Nat) (xs : List XEv) (c : Ctx) (hkc : Symbols.Inv c.keyCache) :
+    ∃ kc', KCOk c.keyCache kc' ∧
+      run fuel (deliver xs) c = (run fuel (deliverExpanded xs) c).setKC kc' :=
+  SF.UnfProofs.Cons.ext_events_mean_expansion fuel xs c hkc
+
+/-- … spelled out: accepted iff accepted (same stored value, same stack depths), refused iff
+refused (same error), panics iff panics -/
+theorem ext_events_same_outcome (fuel : Nat) (xs : List XEv) (c : Ctx) (hkc : Symbols.Inv c.keyCache) :
+    (∀ c₁, run fuel (deliverExpanded xs) c = .ok () c₁ →
+      ∃ c₂, run fuel (deliver xs) c = .ok () c₂ ∧ c₂.target = c₁.target ∧ c₂.depths = c₁.depths ∧
+        c₂ = setKC c₁ c₂.keyCache ∧ KCOk c.keyCache c₂.keyCache) ∧
+    (∀ e c₁, run fuel (deliverExpanded xs) c = .err e c₁ →
+      ∃ c₂, run fuel (deliver xs) c = .err e c₂ ∧ c₂.target = c₁.target ∧ c₂ = setKC c₁ c₂.keyCache) ∧
+    (∀ c₁, run fuel (deliverExpanded xs) c = .panic c₁ → ∃ c₂, run fuel (deliver xs) c = .panic c₂) ∧
+    ((∃ c₂, run fuel (deliver xs) c = .ok () c₂) → ∃ c₁, run fuel (deliverExpanded xs) c = .ok () c₁) ∧
+    ((∃ e c₂, run fuel (deliver xs) c = .err e c₂) → ∃ e c₁, run fuel (deliverExpanded xs) c = .err e c₁) ∧
+    ((∃ c₂, run fuel (deliver xs) c = .panic c₂) → ∃ c₁, run fuel (deliverExpanded xs) c = .panic c₁) :=
+  SF.UnfProofs.Cons.ext_events_same_outcome fuel xs c hkc
+
+/-- C10 + C13 (generic clause) in the form of the `unf` oracle: for EVERY extended event stream
+whose expansion is one well-formed document, after `SetTarget(&v)`, `var v interface{}`, BOTH the
+stream and its expansion are accepted, store the SAME value — the specification's generic value
+up to nil ≙ empty — and leave the Unfolder exactly as it was, up to the contents of the key cache -/
+theorem ext_unfold_into_interface (f : Nat) (tbl : TypeTable) (v0 : GoVal) (xs : List XEv) (c : Ctx)
+    (hwf : WF1 (expandAll xs) = true) (hb : btsValid (expandAll xs) = true) (hn : numsValid (expandAll xs) = true)
+    (hidle : c.unfolder.stack = []) (hkc : Symbols.Inv c.keyCache) :
+    ∃ tree c₀ c₁ c₂,
+      Spec.sbuild (expandAll xs) = some tree ∧ Spec.expected tbl .ifc v0 tree = some (Spec.generic tree) ∧
+      setTarget tbl .ifc v0 c = .ok c₀ ∧
+      run (f + 1) (deliver xs) c₀ = .ok () c₁ ∧ run (f + 1) (deliverExpanded xs) c₀ = .ok () c₂ ∧
+      c₁.target = c₂.target ∧
+      Spec.norm c₁.target = Spec.norm (Spec.generic tree) ∧ Spec.sameVal c₁.target (Spec.generic tree) = true ∧
+      c₁ = { c with target := c₁.target, env := tbl, keyCache := c₁.keyCache } ∧ KCOk c.keyCache c₁.keyCache :=
+  SF.UnfProofs.Cons.ext_unfold_into_interface f tbl v0 xs c hwf hb hn hidle hkc
+
+/-- the invariant of the key cache cannot be dropped: a cache `{enabled, max := 0}` (which no API
+call produces: F28 repaired `EnableKeyCache(0)`) panics on a by-reference key while the expansion
+is accepted; non-vacuity: the demo stream meets the hypotheses -/
+example : WF1 (expandAll SF.UnfProofs.Cons.demoXs) = true ∧ btsValid (expandAll SF.UnfProofs.Cons.demoXs) = true ∧
+    numsValid (expandAll SF.UnfProofs.Cons.demoXs) = true ∧
+    (deliver SF.UnfProofs.Cons.demoXs).length = 14 := by decide +kernel
+
+end SF.PropsUnf.C10
